@@ -100,6 +100,8 @@ pub fn c02_ml_basic_string_body3() {
 #[kani::proof]
 #[kani::unwind(11)]
 #[kani::stub(core::str::from_utf8, stub_from_utf8)]
+#[kani::stub(str::contains, stub_contains_crlf)]
+#[kani::stub(str::replace, stub_replace_crlf)]
 pub fn c02_ml_literal_string_body3() {
     let (body, blen) = any_ascii::<3>();
     let mut buf = [b'\''; 9];
